@@ -22,7 +22,7 @@ from .. import effects, guards
 
 MANIFEST = {
     "level": "proof",
-    "technique": "static analysis: symbolic evaluation of the fitting methods to rational functions of the accumulated moments, identities discharged by polynomial normal form (exact rational arithmetic), conditional constant propagation of the documented default argument",
+    "technique": "static analysis: symbolic evaluation of the fitting methods to rational functions of the accumulated moments, identities discharged by polynomial normal form (exact rational arithmetic), conditional constant propagation of the documented default argument, symbolic execution of set() on every input form (tables of equal length holding the points in order)",
     "text": "Every closed form in CurveFitting is shown, as an identity between rational functions of the data moments, to satisfy the normal equations of its least-squares problem; accumulators are shown to be the moments they are used as; the correlation coefficient identity and its invariances are shown; the general fit is shown to reduce to the quadratic and linear fits. This is a proof about exact real arithmetic for all data sets at once; conditioning in floating point is outside it.",
     "note": "Trusted base: Python ast, the term/polynomial engine (ring axioms over Q, sqrt(x)^2 = x), the reading of `+=` in a for loop as a commutative fold. Undecided: 1e-6 accuracy on floats, independence from input form beyond set().",
 }
@@ -271,12 +271,70 @@ def run(repo, rep, tier):
         else:
             rep.violation("R-E4-ID", site, "affine", "moment-level affine invariance of the correlation coefficient fails", obligation=True)
     general(repo, rep, alg, table, quad)
+    input_forms(repo, rep)
     fam = [(MOD, "CurveFitting." + x) for x in ("set", "_compute_parameters", "correlation_coeff", "linear_fitting", "quadratic_fitting", "general_fitting")]
     effects.check_functions(repo, rep, fam)
     guards.check_functions(repo, rep, fam)
     if rep.findings:
         return "other"
     return "proof"
+
+
+def input_forms(repo, rep):
+    """R-FORMS: whatever form the data arrive in, set() must leave two tables of the same length holding the points
+    (x_i, y_i) in order - the moments above are sums over index pairs of exactly these tables.  set() is executed symbolically
+    on literal inputs of every accepted form (two sequences of equal / unequal length, one sequence, alternating values with
+    an odd one left over) and the tables it leaves are compared with the expected ones."""
+    rep.rule("R-FORMS", "every input form of CurveFitting.set leaves tables x, y of equal length holding the points in order "
+                        "(two sequences of equal and unequal lengths, one sequence, alternating values)")
+    q = "CurveFitting.set"
+    site = MOD + "." + q
+    fn = repo.func(MOD, q)
+    if fn.args.vararg is None:
+        rep.inconcl("R-FORMS", site, "set() no longer takes *args")
+        return
+    va = fn.args.vararg.arg
+    X = lambda n: [T.sym("NUM_X%d" % i) for i in range(n)]
+    Y = lambda n: [T.sym("NUM_Y%d" % i) for i in range(n)]
+    cases = []
+    for nx, ny in ((3, 3), (3, 5), (5, 3), (2, 4)):
+        k = min(nx, ny)
+        for cont in ("list", "tuple"):
+            cases.append(("two %ss of %d and %d values" % (cont, nx, ny), ("tuple", (cont,) + tuple(X(nx)), (cont,) + tuple(Y(ny))), X(k), Y(k)))
+    cases.append(("one list of 4 values", ("tuple", ("list",) + tuple(Y(4))), [T.num(i) for i in range(4)], Y(4)))
+    for n in (4, 5, 6, 7):
+        flat = []
+        for i in range((n + 1) // 2):
+            flat.append(T.sym("NUM_X%d" % i))
+            if 2 * i + 1 < n:
+                flat.append(T.sym("NUM_Y%d" % i))
+        cases.append(("%d alternating values" % n, ("tuple",) + tuple(flat), X(n // 2), Y(n // 2)))
+    bad, unknown, n_ok = [], [], 0
+    for name, args, wx, wy in cases:
+        try:
+            outs, _ = symx.eval_function(repo, MOD, q, arg_terms={"self": T.sym("self"), va: args}, unroll=16)
+        except AnalysisError as e:
+            unknown.append("%s: %s" % (name, e))
+            continue
+        live = [o for o in outs if o.kind != "raise" and symx.fold_bool(o.cond) == ("bool", True)]
+        if len(live) != 1:
+            unknown.append("%s: no single value-storing path (%d)" % (name, len(live)))
+            continue
+        gx, gy = live[0].env.get("self._x"), live[0].env.get("self._y")
+        if gx is None or gy is None or gx[0] not in ("list", "tuple") or gy[0] not in ("list", "tuple"):
+            unknown.append("%s: tables not obtained as literal sequences" % name)
+            continue
+        n_ok += 1
+        if list(gx[1:]) != wx or list(gy[1:]) != wy:
+            bad.append((name, "x = %s, y = %s; expected the %d point(s) x = %s, y = %s" % (T.show(gx)[:70], T.show(gy)[:70], len(wx), T.show(("list",) + tuple(wx))[:60],
+                                                                                        T.show(("list",) + tuple(wy))[:60])))
+    rep.floor("input forms of CurveFitting.set executed", n_ok, 8)
+    for name, msg in bad[:3]:
+        rep.violation("R-FORMS", site, "form:" + name, "with %s set() leaves %s - the sums over these tables no longer describe the same points" % (name, msg), obligation=True)
+    for u in unknown[:2]:
+        rep.inconcl("R-FORMS", site, u)
+    if not bad and not unknown:
+        rep.ok("R-FORMS", site, "%d input forms leave paired tables of equal length" % n_ok, obligation=True)
 
 
 def general_sums(outs):
